@@ -11,6 +11,7 @@ def pow2(k):
 NATIVE = dict(
   pow2=pow2, band=lambda x,y: x&y, bor=lambda x,y: x|y, bxor=lambda x,y: x^y,
   modp=lambda x,k: x % pow2(k) if k>=0 else 0, divp=lambda x,k: x // pow2(k) if k>=0 else 0,
+  shl=lambda x,k: x*pow2(k) if k>=0 else 0,
   b2i=int, implies=lambda a,b: (not a) or bool(b), iff=lambda a,b: bool(a)==bool(b),
   same=lambda a,b: a is b, isnone=lambda a: a is None, hash_of=lambda *a: hash(tuple(a)),
 )
@@ -47,6 +48,10 @@ def macro_namespace():
     ns[name]=eval(code,ns)
   return ns
 
+def native_label(v):
+  if isinstance(v,slice): return 'slice('+','.join(native_tag(x) for x in (v.start,v.stop,v.step))+')'
+  return native_tag(v)
+
 def native_tag(v):
   if isinstance(v,bool) or isinstance(v,int): return 'int'
   if v is None: return 'none'
@@ -54,6 +59,9 @@ def native_tag(v):
   if isinstance(v,str): return 'str'
   if isinstance(v,tuple): return 'tuple'
   n=type(v).__name__
+  if isinstance(v,type): return 'bitscls' if any(b.__name__=='Bits' for b in v.__mro__[1:]) else 'class:'+v.__name__
+  for b in type(v).__mro__:
+    if b.__name__ in NATIVE_CLASS_TAGS: return NATIVE_CLASS_TAGS[b.__name__]
   return NATIVE_CLASS_TAGS.get(n, 'other' if n=='object' else n)
 NATIVE_CLASS_TAGS={}
 
@@ -107,7 +115,7 @@ def check_call(contract, args, repo, ns=None):
   returns Outcome(case, ok, failed=[...], result/exception)."""
   ns=dict(ns or macro_namespace())
   fn=resolve(repo,contract.key)
-  tags={p:native_tag(v) for p,v in args.items()}
+  tags={p:native_label(v) for p,v in args.items()}
   env=dict(ns); env.update(args)
   case=None
   for cs in contract.cases:
@@ -121,7 +129,10 @@ def check_call(contract, args, repo, ns=None):
   pre_fields={p:_fields(v) for p,v in args.items() if not isinstance(v,(int,bool,str,type(None),slice,tuple))}
   exc=None; result=None
   params=list(args)
-  try: result=fn(*[args[p] for p in params])
+  va=contract.vararg() if hasattr(contract,'vararg') else None
+  try:
+    if va is not None: result=fn(*[args[p] for p in params if p!=va],*args[va])
+    else: result=fn(*[args[p] for p in params])
   except BaseException as e: exc=e
   failed=[]
   mods=set(case.modifies if case.modifies is not None else contract.modifies)
